@@ -159,8 +159,13 @@ def resolve_cases(chk):
                      "f": 1.5, "d": gen.DATES[0]},
          "subject": {"id": "u", "roles": ["r"], "attrs": {"x": {"y": 1}}}, "action": "read",
          "resource": {"type": "doc", "id": "1", "attrs": {}}},
+        # keys that contain dots / look like path remainders: a path follows the steps, it never joins them
+        {"context": {"a.b": 5, "a": {"b.c": 5, "x": {"y.z": {"w": 5}}}, "a.b.c": 5, "n.real": 5, ".": 5, "a.": {"": 5}},
+         "subject": {"id": "u", "roles": [], "attrs": {"custom.department": "str", "hr.clearance": 5, "x": {"y": 1}}},
+         "action": "read", "resource": {"type": "doc", "id": "1", "attrs": {"q.r": 5}}},
     ]
-    paths = ["context.a.b.c", "context.a.b", "context.a.x", "context.a.b.c.d", "context.n.real", "context.n.bit_length",
+    paths = ["subject.attrs.custom.department", "subject.attrs.hr.clearance", "context.a.x.y.z.w", "context.a.x.y.z", "resource.attrs.q.r",
+             "context.a.b.c", "context.a.b", "context.a.x", "context.a.b.c.d", "context.n.real", "context.n.bit_length",
              "context.s.upper", "context.l.append", "context.none.x", "context..", "context.", ".", "", "context",
              "subject.roles", "subject.attrs.x.y", "resource.attrs.q", "nokey", "context.t.real", "context.f.real",
              "context.l.0", "context.a.b.c.real", "context.none", "context.s.__class__", "subject.id.x", "action.x",
